@@ -100,7 +100,8 @@ type ContractFile struct {
 	Specs   map[string]*SpecFunc
 	Axioms  []Axiom
 	Default struct {
-		Mode string
+		Mode     string
+		HeapArgs string // "boxed": array-valued heap arguments of opaque functions and lemma closures are passed as Int handles
 	}
 	Scan []string // every axiom / trusted / assume line, for the evidence
 }
@@ -193,6 +194,9 @@ func ParseContractFile(path string) (*ContractFile, error) {
 			k2, v, _ := strings.Cut(rest, " ")
 			if k2 == "mode" {
 				cf.Default.Mode = strings.TrimSpace(v)
+			}
+			if k2 == "heapargs" {
+				cf.Default.HeapArgs = strings.TrimSpace(v)
 			}
 		case "spec", "ospec", "ghost", "ghostfield":
 			// spec name(params) T = expr   |  ghost name(params) T
